@@ -29,8 +29,11 @@ for d in sorted(os.listdir(os.path.join(V, "seeded"))):
     json.dump(meta, open(os.path.join(p, "meta.json"), "w"), indent=1)
     rows.append((d, rc, kind, round(time.time() - t0, 1)))
     print(d, rc, kind, flush=True)
-with open(os.path.join(V, "seeded", "RESULTS.md"), "a" if only else "w") as f:
-    if not only:
-        f.write("| seeded change | exit of quick check | how it was reported | seconds |\n|---|---|---|---|\n")
-    for r in rows:
-        f.write("| %s | %d | %s | %s |\n" % r)
+# the table is always regenerated from the meta.json files
+with open(os.path.join(V, "seeded", "RESULTS.md"), "w") as f:
+    f.write("| seeded change | exit of quick check | how it was reported | seconds |\n|---|---|---|---|\n")
+    for d in sorted(os.listdir(os.path.join(V, "seeded"))):
+        mp = os.path.join(V, "seeded", d, "meta.json")
+        if os.path.exists(mp):
+            db = json.load(open(mp)).get("detected_by") or {}
+            f.write("| %s | %s | %s | %s |\n" % (d, db.get("exit"), db.get("kind"), db.get("seconds")))
